@@ -41,6 +41,10 @@ def same(a, b_, tol=1e-5):
     return a.shape == b_.shape and np.allclose(a, b_, atol=tol)
 
 
+def P(g, p):
+    return ppa.Pauli(np.array(g, dtype=np.int64), int(p))
+
+
 def tP(g, p):
     return tpa.Pauli(T(g), int(p))
 
@@ -155,6 +159,15 @@ def c13_torch(run, Nmax=2, count=12, circuits=30):
                     lambda: (lambda s: [s.gs, s.ps, s.r])(tstate(gs, ps, r).copy()), inp)
                 cmp('StabilizerState.expect(list)', lambda: pst.StabilizerState(gs.copy(), ps=ps.copy()).set_r(r).expect(PL(gsall, 2 * (psall % 2))),
                     lambda: tstate(gs, ps, r).expect(tPL(gsall, 2 * (psall % 2))), inp)
+                # expectation of single operators of every phase (promoted to polynomials) and of a polynomial with complex coefficients
+                for kk in range(min(len(S), 8)):
+                    g_e, p_e = S[(kk * 5 + 1) % len(S)], kk % 4
+                    cmp('StabilizerState.expect(Pauli, phase %d)' % p_e, lambda: complex(pst.StabilizerState(gs.copy(), ps=ps.copy()).set_r(r).expect(P(g_e, p_e))),
+                        lambda: complex(n(tstate(gs, ps, r).expect(tP(g_e, p_e)))), dict(inp, g=lst(g_e), p=p_e))
+                cs_e = np.array([0.5 - 1j, 2.0, -0.25j, 1 + 1j][:min(4, len(S))])
+                cmp('StabilizerState.expect(polynomial)',
+                    lambda: complex(pst.StabilizerState(gs.copy(), ps=ps.copy()).set_r(r).expect(ppa.PauliPolynomial(gsall[:len(cs_e)].copy(), psall[:len(cs_e)].copy()).set_cs(cs_e.copy()))),
+                    lambda: complex(n(tstate(gs, ps, r).expect(tpa.PauliPolynomial(T(gsall[:len(cs_e)]), T(psall[:len(cs_e)])).set_cs(torch.tensor(cs_e))))), inp)
                 if N - r >= 1:
                     for reg in itertools.chain.from_iterable(itertools.combinations(range(N), k) for k in range(1, N + 1)):
                         cmp('StabilizerState.entropy[%s]' % ('mixed' if r else 'pure'), lambda: pst.StabilizerState(gs.copy(), ps=ps.copy()).set_r(r).entropy(list(reg)),
